@@ -219,13 +219,15 @@ pair1poly_pipe_init(void *arg, nni_pipe *pipe, void *pair)
 	nni_aio_init(&p->aio_get, pair1poly_pipe_get_cb, p);
 	nni_aio_init(&p->aio_put, pair1poly_pipe_put_cb, p);
 
+	// Set these first: the pipe is closed and finalized by the core (which
+	// looks at the socket) even when this function fails.
+	p->pipe = pipe;
+	p->pair = pair;
+
 	if ((rv = nni_msgq_init(&p->send_queue, 2)) != 0) {
 		pair1poly_pipe_fini(p);
 		return (rv);
 	}
-
-	p->pipe = pipe;
-	p->pair = pair;
 
 	return (0);
 }
